@@ -1,5 +1,95 @@
 """projection Mininec -> structured option model and comparison with the Lean writer (C15 tie)"""
+import re, shlex, collections
+from common import run_main
+
+LUMP = {'Impedance_Load': 'imp', 'Series_RLC_Load': 'rlc', 'Trap_Load': 'trap', 'Laplace_Load': 'laplace'}
+
+
+def project(m):
+    from mininec import mininec as M
+    toks = []
+    ids = {}
+
+    def vid(v):
+        if v == 1 + 0j:
+            return 0
+        return ids.setdefault(('v', complex(v)), len(ids) + 1)
+    toks.append(len(m.sources))
+    for s in m.sources:
+        if s.geo_tag is not None and s.geo_idx is not None:
+            toks += ['rel', s.geo_idx + 1, s.geo_tag]
+        else:
+            toks += ['abs', s.idx + 1, 0]
+        toks += [vid(s.voltage), 1 if s.is_default else 0]
+    toks.append(len(m.geo))
+    for w in m.geo:
+        toks += [w.tag, len(w.pulses)] + [p.idx + 1 for p in w.pulses]
+    lumps = [l for l in m.loads if type(l).__name__ in LUMP]
+    toks.append(len(lumps))
+    for k, l in enumerate(lumps):
+        toks += [LUMP[type(l).__name__], k + 1, len(l.pulses)] + [p.idx + 1 for p in l.pulses]
+    return toks, lumps
+
+
+def parse_real(txt):
+    """structure of the real option text: source options in order, load definitions in order,
+    attachments per load number as a multiset"""
+    S, L, A = [], [], collections.defaultdict(collections.Counter)
+    nl = 0
+    lap = 0
+    for line in txt.split('\n'):
+        if line.startswith('--excitation-pulse='):
+            v = line.split('=')[1].split(',')
+            S.append('Pabs:%s' % v[0] if len(v) == 1 else 'Prel:%s:%s' % (v[0], v[1]))
+        elif line.startswith('--excitation-voltage='):
+            S.append('V')
+        elif line.startswith('--load='):
+            L.append('imp')
+        elif line.startswith('--rlc-load='):
+            L.append('rlc')
+        elif line.startswith('--trap-load='):
+            L.append('trap')
+        elif line.startswith('--laplace-load-b='):
+            L.append('laplace')
+        elif line.startswith('--attach-load='):
+            v = line.split('=')[1].split(',')
+            if v[1] == 'all':
+                key = 'all' if len(v) == 2 else 'o:%s' % v[2]
+            else:
+                key = 'p:%s' % v[1] if len(v) == 2 else 'r:%s:%s' % (v[1], v[2])
+            A[int(v[0])][key] += 1
+    return S, L, A
 
 
 def compare(d, argv):
+    r = run_main(argv, want_mininec=True)
+    m = r['m']
+    if m is None:
+        return None
+    toks, lumps = project(m)
+    ans = d.ask('cmd write', *toks)
+    mm = re.match(r'^(\d) (\d) S\[(.*)\] L\[(.*)\]$', ans)
+    if not mm:
+        return 'driver: ' + ans[:80]
+    if mm.group(1) != '1':
+        return 'model reader does not recover the projected sources'
+    if mm.group(2) != '1':
+        return 'model reader does not recover the projected loads'
+    S, L, A = parse_real(m.as_cmdline())
+    ms = [x if x[0] == 'P' else 'V' for x in mm.group(3).split(',') if x]
+    if ms != S:
+        return 'source options: implementation %r, model %r' % (S, ms)
+    ml, ma = [], collections.defaultdict(collections.Counter)
+    for x in mm.group(4).split(','):
+        if not x:
+            continue
+        if x[0] == 'L':
+            ml.append(x[1:].split(':')[0])
+        else:
+            i, a = x[1:].split(':', 1)
+            ma[int(i)][a] += 1
+    if ml != L:
+        return 'load definitions: implementation %r, model %r' % (L, ml)
+    if dict(ma) != dict(A):
+        return 'load attachments: implementation %r, model %r' % (dict(A), dict(ma))
     return None
